@@ -18,8 +18,8 @@ QDec(x) == LET RECURSIVE H(_, _)
            IN H(FromInt(x.n), x.e)
 \* observed composition (sequence of [i, c]) equals a model bag
 ObsBagOK(ob, bag) ==
-  /\ \A k \in DOMAIN ob : ob[k].i \in 1..NAtoms /\ Close(ob[k].c, QDec(bag[ob[k].i]), -12)
-  /\ \A a \in 1..NAtoms : bag[a].n # 0 => \E k \in DOMAIN ob : ob[k].i = a
+  /\ \A k \in DOMAIN ob : ob[k].i \in 1..NSlots /\ Close(ob[k].c, QDec(bag[ob[k].i]), -12)
+  /\ \A a \in 1..NSlots : bag[a].n # 0 => \E k \in DOMAIN ob : ob[k].i = a
   /\ \A j, k \in DOMAIN ob : j # k => ob[j].i # ob[k].i
 VarSeq == Hdr.vars
 PoolWhy(s, al) ==        \* first disagreement between the model state and the observed pool
@@ -33,10 +33,10 @@ SumOver(f(_), n) == LET RECURSIVE S(_)
                         S(k) == IF k = 0 THEN Zero ELSE Add(f(k), S(k - 1))
                     IN S(n)
 NumWhy(h, bag, num) ==
-  LET m(a) == h.atoms[a].m   q(a) == h.atoms[a].q
+  LET m(a) == h.atoms[AtomOfSlot(a)].m   q(a) == h.atoms[AtomOfSlot(a)].q
       cnt(a) == QDec(bag[a])
-      mass == SumOver(LAMBDA a : Mul(cnt(a), m(a)), NAtoms)
-      charge == SumOver(LAMBDA a : Mul(cnt(a), FromInt(q(a))), NAtoms)
+      mass == SumOver(LAMBDA a : Mul(cnt(a), m(a)), NSlots)
+      charge == SumOver(LAMBDA a : Mul(cnt(a), FromInt(q(a))), NSlots)
   IN IF "exc" \in DOMAIN num THEN (IF IsZero(mass) THEN "ok" ELSE "NumbersCompute")
      ELSE IF ~Close(num.mass, mass, -12) THEN "MassIsSum"
      ELSE IF ~Close(num.charge, charge, -12) THEN "ChargeIsSum"
@@ -56,7 +56,7 @@ Walk(s, h, i) ==
        IN IF ~Enabled(s, op) THEN [step |-> i, clause |-> "HarnessOpNotEnabled"]
           ELSE LET t == ApplyOp(s, op)
                    w == PoolWhy(t, h.steps[i].pool)
-                   wv == IF op.op \in {"iadd"} THEN op.a ELSE op.v
+                   wv == IF op.op \in {"iadd", "chtab"} THEN op.a ELSE op.v
                    nw == IF w = "ok" /\ "num" \in DOMAIN h.steps[i] /\ t.pool[wv] # None
                          THEN NumWhy(h, t.obj[t.pool[wv]], h.steps[i].num) ELSE "ok"
                IN IF w # "ok" THEN [step |-> i, clause |-> w]
